@@ -384,6 +384,7 @@ def exotic_children(o):
 
 
 def reference_markers(o, path, out, budget):
+    o = M.ppm.unwrap_comments(o)[0]
     if isinstance(o, _Fails):
         _FAIL_OCC.append(repr(o))
         return
@@ -407,6 +408,9 @@ def reference_markers(o, path, out, budget):
 _MARK = _re.compile(r'<Recursion on (\w+) with id=(\d+)>')
 
 
+COMMENT_TEXTS = ['note', 'a comment that is far too long to fit on the line beside the value it belongs to, at any of the widths used', 'two\nlines']
+
+
 def rand_exotic_graph(rng):
     n = rng.randint(2, 5)
     nodes = [make_exotic(rng.choice(EXOTIC), i) for i in range(n)]
@@ -414,8 +418,14 @@ def rand_exotic_graph(rng):
     for _ in range(rng.randint(1, n + 1)):
         edges.append((rng.randrange(n), rng.randrange(n)))
     rng.shuffle(edges)
+    commented = rng.random() < 0.35
     for s_, d_ in edges:
-        nodes[s_][1](nodes[d_][0])
+        child = nodes[d_][0]
+        if commented and rng.random() < 0.5:
+            # the reference to the child carries a comment (a wrapper object around the very same container): cycles through commented dict
+            # values / list elements must be cut at the same places
+            child = (prettyprinter.comment if rng.random() < 0.7 else prettyprinter.trailing_comment)(child, rng.choice(COMMENT_TEXTS))
+        nodes[s_][1](child)
     return [x[0] for x in nodes], edges
 
 
@@ -441,7 +451,7 @@ def check_exotic(sh, i):
     except Exception as e:
         sh.violation('pformat-raised', repr(e), case)
         return
-    ws = [w for w in ws if '_pretty_fails' not in w[1]]
+    ws = [w for w in ws if '_pretty_fails' not in w[1] and 'does not support rendering trailing comments' not in w[1]]
     if ws:
         sh.violation('warning', ws[0][1][-300:], case)
         return
